@@ -118,6 +118,46 @@ let run_yparse (arg : string) =
     | _ -> failwith ("bad token " ^ t)) (String.split_on_char ';' arg) in
   print_endline (ocaml_string (Model.show_outcome (Model.parse_tokens (nat_of_int 100000) toks)))
 
+(* mscan DESTS VALUES ORACLE: Model/RowScan.v scan_args; ORACLE = per column ff/pf/pt as printed by the implementation harness *)
+let rec z_to_string (z : Model.z) : string =
+  let rec pos_to_int64 = function Model.XH -> 1L | Model.XO p -> Int64.mul 2L (pos_to_int64 p) | Model.XI p -> Int64.add (Int64.mul 2L (pos_to_int64 p)) 1L in
+  match z with
+  | Model.Z0 -> "0"
+  | Model.Zpos p -> Printf.sprintf "%Lu" (pos_to_int64 p)
+  | Model.Zneg p -> let v = pos_to_int64 p in if v = Int64.min_int then "-9223372036854775808" else "-" ^ Printf.sprintf "%Lu" v
+let hex_of_bytes (l : Model.byte list) = String.concat "" (List.map (fun c -> Printf.sprintf "%02x" (Hashtbl.find byte_idx c)) l)
+let hex16_of_z (z : Model.z) : string =
+  let rec pos_to_int64 = function Model.XH -> 1L | Model.XO p -> Int64.mul 2L (pos_to_int64 p) | Model.XI p -> Int64.add (Int64.mul 2L (pos_to_int64 p)) 1L in
+  match z with Model.Z0 -> "0000000000000000" | Model.Zpos p -> Printf.sprintf "%016Lx" (pos_to_int64 p) | Model.Zneg _ -> "?"
+let run_mscan (ws : string list) =
+  match ws with
+  | [_; dests; values; oracle] ->
+    let dest = function "s" -> Model.DString | "b" -> Model.DBytes | "i64" -> Model.DInt64 | "i32" -> Model.DInt32 | "i" -> Model.DInt
+                      | "bool" -> Model.DBool | "f" -> Model.DFloat64 | "t" -> Model.DTime | "nil" -> Model.DSkip | _ -> Model.DUnsupported in
+    let ds = List.map dest (String.split_on_char ',' dests) in
+    let vals = if values = "-" then [] else String.split_on_char ',' values in
+    let row = List.map (fun v -> Model.read_value (bytes_of_string v)) vals in
+    let orc = if oracle = "-" || oracle = "" then [] else List.map (fun o -> match String.split_on_char '/' o with [a; b; c] -> (a, b, c) | _ -> ("-", "-", "-")) (String.split_on_char ';' oracle) in
+    let cols = List.combine row (if List.length orc = List.length row then orc else List.map (fun _ -> ("-", "-", "-")) row) in
+    let format_float (bits : Model.z) : Model.byte list =
+      let rec find = function [] -> [] | (Model.VReal b, (ff, _, _)) :: r -> if b = bits then bytes_of_string (unhex ff) else find r | _ :: r -> find r in find cols in
+    let text_of = function Model.VText s | Model.VBlob s -> Some s | _ -> None in
+    let parse_float (s : Model.byte list) : Model.z option =
+      let rec find = function [] -> None | (v, (_, pf, _)) :: r -> if text_of v = Some s then (if pf = "-" then None else Some (z_of_hex pf)) else find r in find cols in
+    let parse_time (s : Model.byte list) : (Model.z * Model.z) option =
+      let rec find = function [] -> None | (Model.VText t, (_, _, pt)) :: r ->
+        if t = s then (if pt = "-" then None else match String.split_on_char ':' pt with [a; b] -> Some (z_of_dec a, z_of_dec b) | _ -> None) else find r
+        | _ :: r -> find r in find cols in
+    let (xs, ok) = Model.scan_args format_float parse_float parse_time ds row Model.O in
+    let show = function
+      | Model.SString s -> "s" ^ hex_of_bytes s
+      | Model.SBytes None -> "bnil" | Model.SBytes (Some b) -> "b" ^ hex_of_bytes b
+      | Model.SInt z -> "i" ^ z_to_string z | Model.SBool b -> if b then "true" else "false"
+      | Model.SFloat f -> "f" ^ hex16_of_z f | Model.STime (a, b) -> "T" ^ z_to_string a ^ ":" ^ z_to_string b
+      | Model.STimeZero -> "T-62135596800:0" | Model.SNone -> "skip" | Model.SErr -> "ERR" in
+    print_endline ((if ok then "ok " else "err ") ^ String.concat "," (List.map show xs))
+  | _ -> print_endline "mscan: bad command"
+
 (* lock NH NW step step ... : the lock protocol model (Model/Lock.v).  Handle h lives
    in process h, SQLite connection w in process NH+w.  Steps: L1 L2 L3 P U C (handle:
    RLock's three calls, page read, RUnlock, Close) and S1 S2 S3 R Pe X W UA D
@@ -162,6 +202,7 @@ let () =
       else if line.[0] = '#' then (print_endline line; flush stdout)
       else if starts_with "db " line then load_image (String.sub line 3 (String.length line - 3)) false
       else if starts_with "reload " line then load_image (String.sub line 7 (String.length line - 7)) true
+      else if starts_with "mscan " line then run_mscan (String.split_on_char ' ' line)
       else if starts_with "yparse" line then run_yparse (if String.length line > 7 then String.sub line 7 (String.length line - 7) else "")
       else if starts_with "crashphases" line then begin
         (* the order of a writer's file operations against Model/Crash.v's protocol automaton *)
